@@ -397,3 +397,6 @@ def _step(obj, model, op, kind, six, decls):
         if getattr(obj, attr) != exp:
             return f"attribute {attr} reads {getattr(obj, attr)!r}, expected {exp!r}"
     return None
+
+from pyvc.xcheck import OrderedDictProbe   # noqa: E402
+THOROUGH_BOUNDED = [OrderedDictProbe()]
